@@ -92,7 +92,7 @@ func replayChild(args []string) {
 			x = 99
 		}
 		switch {
-		case x < 60 || last == 0:
+		case (x < 60 || last == 0) && !(setHeavy && x == 99):
 			next := last + 1
 			if last == 0 {
 				next = []uint64{1, 1, 30}[rng.Intn(3)]
